@@ -39,7 +39,7 @@ func (c19) Budget(tier string) core.Budget {
 	if tier == "thorough" {
 		return core.Budget{Runs: 300000, WallCap: 20 * time.Minute}
 	}
-	return core.Budget{Runs: 4000, WallCap: 45 * time.Second}
+	return core.Budget{Runs: 16000, WallCap: 45 * time.Second}
 }
 
 type constSpec struct {
